@@ -554,6 +554,9 @@ func classOfVariant(name string) string {
 	if strings.HasPrefix(name, "perm") {
 		return "permutation"
 	}
+	if strings.HasPrefix(name, "padded") || strings.Contains(name, "-then-padded") {
+		return "padded-key-and-second-unknown-field"
+	}
 	if strings.HasPrefix(name, "unknown") {
 		return "unknown-field"
 	}
